@@ -144,7 +144,7 @@ void null_case(const uint32_t *mat, int n, uint32_t side, int maxc) {
   ri_maxc = maxc;
   pre_state(mat, n, side);
   /* null moves are only made when not in check */
-  __CPROVER_assume(!s_attacked(&S, s_king_sq(&S, side), 1 - side));
+  __CPROVER_assume(!S_ATTACKED(&S, s_king_sq(&S, side), 1 - side));
   SBoard T = S; T.side = 1 - side; T.ep = 64; ntouched = 0;
   uint32_t mi = _ZN6engine8Position12do_null_moveEv(&P);
 #if defined(CHECK_C04)
